@@ -10,7 +10,7 @@ package main
 // Direct oracles on the implementation alone:
 //   go.msg.hash <table>        Hash(false) == Cell.Hash of the source, with and without a Hasher-carrying decoder, decoded
 //                              twice, and when the message sits in references of an enclosing record; non-ext-in:
-//                              Hash(true) == Hash(false)
+//                              Hash(true) == Hash(false); Hash(true) leaves the message value (its re-encoding) unchanged
 //   go.msg.norm_eq <A> <B>     two ext-in messages that differ only in ignored parts: Hash(true) equal
 //   go.msg.norm_ne <A> <B>     two ext-in messages that differ in destination or body: Hash(true) different
 //   go.msg.canon <table>       Hash(true) == hash of tlb.Marshal of the canonical message (schema encoder)
@@ -97,6 +97,26 @@ func goMsgHash(a []string) string {
 	h0 := m.Hash(false)
 	if !bytes.Equal(h0[:], want) {
 		return fmt.Sprintf("FAIL hash-plain got=%x want=%x", h0[:], want)
+	}
+	// asking for the normalised hash must not change the message: its re-encoding is the same before and after
+	reenc := func() string {
+		x := boc.NewCell()
+		if err := tlb.Marshal(x, m); err != nil {
+			return "-"
+		}
+		s, err := x.HashString()
+		if err != nil {
+			return "-"
+		}
+		return s
+	}
+	before := reenc()
+	_ = m.Hash(true)
+	if after := reenc(); before != after {
+		return "FAIL norm-mutates-message before=" + before + " after=" + after
+	}
+	if m.Hash(false) != h0 {
+		return "FAIL norm-changes-plain-hash"
 	}
 	// decoded a second time from the same (already read) cell
 	var m2 tlb.Message
